@@ -144,6 +144,8 @@ def try_replay(path, verbose=False):
             else:
                 pre_decls.append('  static %s %s;' % (base, var))
             for pth, val in paths.items():
+                if val is None:
+                    continue
                 lit = cval(val, None)
                 if lit is None or pth.endswith('$pad') or '$pad' in pth:
                     continue
@@ -173,6 +175,8 @@ def try_replay(path, verbose=False):
     src.append('  if (!req_) { std::puts("PRECONDITION-NOT-MET"); return 3; }')
     src.append('  std::printf("calling real %s\\n"); std::fflush(stdout);' % fname)
     call = b['call']
+    if b.get('pre'):
+        src.append('  ' + b['pre'])
     src.append('  auto rv_ = %s;' % call)
     src.append('  int bad = 0;')
     for k, e in enumerate(ens):
